@@ -353,7 +353,9 @@ theorem stepLiteralTail_cost (hC : C.P.Consumes) (x : Ectx) (env : Env) (lex res
                   split at h
                   · rw [h] at h1; exact h1
                   · rw [h] at h2; exact h2
-                cost_simp; omega
+                split
+                · trivial
+                · cost_simp; omega
       · cost_simp; simp only [inputCost] at hb; omega
 
 theorem emitOfNumeric_cost (x : Ectx) (env : Env) {r : Ttl.Res (Ttl.NumKind × List Nat)} {n B : Nat}
